@@ -67,7 +67,7 @@ P_kinds == { P(FALSE, <<1, 5>>, 7, "sciP"), P(FALSE, <<1, 2, 3, 4, 5, 6>>, -17, 
              PQ(<<3>>, 0, "int", "/molar**2/second"), PS("k"), PS("k_fwd1") }
 P_zero == { [kind |-> "num", v |-> DZero, style |-> "zero"], [kind |-> "num", v |-> DZero, style |-> "zerof"] }
 P_fk == P_few \cup P_kinds \cup P_zero
-P_ak == P_all \cup P_kinds
+P_ak == P_all \cup P_kinds \cup P_zero
 P_cfg == { [kind |-> "num", v |-> DZero, style |-> "zero"], P(FALSE, <<1, 5>>, 0, "fix"), P(FALSE, <<1, 2, 3, 4, 5, 6>>, -17, "sci"), PS("k"),
            PQ(<<1>>, 8, "sci", "/molar/second") }
 Fm_all == {"list", "tuple", "set", "dict", "str", "alias"}
